@@ -368,6 +368,8 @@ func solveObligation(sc *smtScript, ob *Obligation, opts solveOpts) {
 	var raws []string
 	t0 := time.Now()
 	decided := false
+	crossChecked := false
+	_ = crossChecked
 	for range solvers {
 		r := <-ch
 		raws = append(raws, fmt.Sprintf("[%s %.2fs] %s", r.name, r.secs, strings.Join(r.statuses, ",")))
@@ -404,6 +406,26 @@ func solveObligation(sc *smtScript, ob *Obligation, opts solveOpts) {
 			}
 			if all {
 				decided = true
+				cancel()
+			}
+		} else if opts.all && !decided {
+			// cross-check mode: stop as soon as two different solvers have answered every VC definitely (they agree,
+			// otherwise the disagreement branch above has already returned)
+			full := 0
+			for _, rr := range raws {
+				if !strings.Contains(rr, "unknown") && !strings.HasSuffix(strings.TrimSpace(rr), "]") {
+					full++
+				}
+			}
+			complete := true
+			for _, b := range best {
+				if b.status == "unknown" {
+					complete = false
+				}
+			}
+			if complete && full >= 2 {
+				decided = true
+				crossChecked = true
 				cancel()
 			}
 		} else if !opts.all && !decided {
